@@ -86,13 +86,16 @@ def step (S : Regs α) : Op α → Regs α × Out α
     else (S, ⟨.bad, none⟩)
   | .shuffle _ _ => (S, ⟨.unit, none⟩)
 
-/-- Does the reference accept the observed outputs `outs` of the history `ops`?
-Each operation is judged with its oracle replaced by the observed choice. -/
-def accepts (S : Regs α) : List (Op α) → List (Out α) → Bool
-  | [], [] => true
+/-- The reference judging the observed outputs `outs` of the history `ops`: each operation is
+taken with its oracle replaced by the observed choice (`Op.resolve`), and its output must be
+exactly the reference's.  `some S'` = accepted, with the reference sets afterwards. -/
+def judge (S : Regs α) : List (Op α) → List (Out α) → Option (Regs α)
+  | [], [] => some S
   | op :: ops, o :: outs =>
     let (S', o') := step S (op.resolve o)
-    o' == o && accepts S' ops outs
-  | _, _ => false
+    if o' = o then judge S' ops outs else none
+  | _, _ => none
+
+def accepts (S : Regs α) (ops : List (Op α)) (outs : List (Out α)) : Bool := (judge S ops outs).isSome
 
 end MdsVerif.Spec.MathSet
